@@ -3,6 +3,7 @@ package main
 import (
 	"math/rand"
 	"runtime"
+	"strconv"
 	"sync"
 
 	"github.com/theQRL/go-qrllib/dilithium"
@@ -392,6 +393,24 @@ func c05(r *rand.Rand, tier string, tr *trace.Buf, extra map[string]interface{})
 			}
 			tr.Emit(e)
 		}
+	}
+	// a signer that holds the key and changes ONE bit of the challenge seed after hashing, then derives the
+	// challenge, z and the hints from the changed seed: everything in the signature is consistent except that
+	// c~ is not H(mu || w1). Every byte position of c~.
+	for b := 0; b < 32; b++ {
+		msg := make([]byte, 1+r.Intn(60))
+		r.Read(msg)
+		b, bit := b, byte(1)<<uint(r.Intn(8))
+		fired := false
+		dilithium.VerifSignAlterC = func(c *[32]uint8) { c[b] ^= bit; fired = true }
+		sig, _, _, _, _, _, ok := dilithium.VerifSignSkipping(msg, &sk, 0, 400)
+		dilithium.VerifSignAlterC = nil
+		if !ok || !fired {
+			continue
+		}
+		got["challenge-seed-altered"]++
+		e := check("challenge-seed-altered-byte-"+strconv.Itoa(b), msg, sig, &pk, true, false)
+		tr.Emit(e)
 	}
 	extra["hint_classes"] = classes
 	extra["skipping_signer"] = got
